@@ -1779,12 +1779,9 @@ func (p *context) typeArgName(t types.Type) string {
 		}
 		return fmt.Sprintf("%s %s", s, elem)
 	default:
-		return types.TypeString(t, func(pkg *types.Package) string {
-			if pkg == nil {
-				return ""
-			}
-			return pkg.Name()
-		})
+		// Struct, function and interface types are written structurally, with
+		// this formatter's names for the named types they mention.
+		return abi.TypeArgString(t, func(t *types.Named) string { return p.typeArgName(t) })
 	}
 }
 
